@@ -168,9 +168,53 @@ def r1_no_recursion(ctx, chk, rule="C07.1"):
 
 # ---- C07.2 ---------------------------------------------------------------------------
 
+class _Rec:
+    def __init__(self):
+        self.items = []
+
+    def ok(self, rule, where, text, **kw):
+        self.items.append(("ok", rule, where, text, kw))
+
+    def violation(self, rule, where, text, **kw):
+        self.items.append(("violation", rule, where, text, kw))
+
+    def undecided(self, rule, where, text, **kw):
+        self.items.append(("undecided", rule, where, text, kw))
+
+
+def _generic(ctx):
+    """Verdicts of the work-list recogniser (C07g) for designs the pattern rules do not know; None when it does not apply."""
+    if "C07.generic" not in ctx.cache:
+        from . import C07g
+        s = _search(ctx)
+        rec = _Rec()
+        took = False
+        if s.root_loop is None or s.search_fn is None:
+            try:
+                took = C07g.generic(ctx, rec, s.f, s.finals, "2", "3", "5")
+            except AnalysisError:
+                took = False
+        ctx.cache["C07.generic"] = rec.items if took else None
+        if took and s.visited_name is None:
+            s.visited_name = took           # the result rule needs to know which collection holds the marked states
+    return ctx.cache["C07.generic"]
+
+
+def _replay(chk, items, mapping):
+    n = 0
+    for kind, rule, where, text, kw in items:
+        if rule in mapping:
+            getattr(chk, kind)(mapping[rule], where, text, **kw)
+            n += 1
+    return n
+
+
 def r2_roots(ctx, chk, rule="C07.2"):
     s = _search(ctx)
     f = s.f
+    g = _generic(ctx)
+    if g is not None and _replay(chk, g, {"2": rule}):
+        return
     if s.root_loop is None:
         # alternative idiom: worklist seeded with the whole final list
         for n in walk_no_nested_defs(f.node):
@@ -299,6 +343,12 @@ def _functional_accumulation(ctx, chk, s, rule):
 
 def r35_worklist(ctx, chk, rule3="C07.3", rule5="C07.5"):
     s = _search(ctx)
+    g = _generic(ctx)
+    if g is not None:
+        n = _replay(chk, g, {"3": rule3, "5": rule5})
+        if n == 0:
+            chk.undecided(rule3, s.f.where(), "the work-list search was not judged beyond its roots")
+        return
     if s.search_fn is None or s.s_visited is None:
         chk.undecided(rule3, s.f.where(), "search function / visited collection not identified")
         chk.undecided(rule5, s.f.where(), "search function / visited collection not identified")
@@ -472,6 +522,7 @@ def r4_result(ctx, chk, rule="C07.4", order_matters=True):
     """order_matters=False when used as a prerequisite of the value iteration: the limit of the sweep does not depend
     on the order of its domain, only C07 itself promises an ascending result."""
     s = _search(ctx)
+    _generic(ctx)
     f = s.f
     cfg = ctx.cfg(f)
     rets = [n for n in walk_no_nested_defs(f.node) if isinstance(n, ast.Return)]
@@ -655,6 +706,25 @@ def r6_reversed_table(ctx, chk, rule="C07.6"):
         chk.ok(rule, cw, "completion: table.setdefault(s, []) for every s in range(len(%s)) (every state has an entry)" % f.params[0])
         base_dict = ret
         v = None
+    sp = _single_pass_loops(sx, ret, tl) if formC is None else None
+    if sp is not None:
+        # the dictionary that the single pass fills is returned as it is: it must have had an entry for every state from the start
+        Lo = sp[0]
+        init = Lo.init.get(sp[2])
+        pre = init is not None and init[0] == "compr" and init[1] in sx.loops and sx.loops[init[1]].ckind == "dict" and not sx.loops[init[1]].filters \
+            and sx.loops[init[1]].source in full_range and sx.loops[init[1]].elt == ("tup", (("elem", init[1]), ("list", ())))
+        if pre:
+            chk.ok(rule, f.where(Lo.node), "completion: the table starts as {s: [] for s in range(len(%s))} (every state has an entry)" % f.params[0])
+        elif init is not None and init[0] == "compr":
+            chk.violation(rule, f.where(Lo.node), "the table starts as `%s`, which does not give every state in range(len(%s)) an empty entry" % (show(sx.loops[init[1]].source), f.params[0]),
+                          expected="{s: [] for s in range(len(%s))}" % f.params[0], found=show(init), construct="reversed table initial entries")
+            return
+        else:
+            chk.violation(rule, f.where(Lo.node), "states without predecessors get no entry in the reversed table: nothing completes it after the grouping pass "
+                          "(the search raises KeyError when it expands such a state)", expected="an entry for every state", found="no completion", construct="reversed table not completed")
+            return
+        _single_pass(ctx, chk, rule, sx, sp, tl, f, where)
+        return
     if formC is None and ret[0] != "res":
         chk.undecided(rule, where, "reverse_transition_list does not return the result of the completion loop: %s" % show(ret))
         return
@@ -666,7 +736,126 @@ def r6_reversed_table(ctx, chk, rule="C07.6"):
         if _ok is None:
             return
         base_dict = _ok
+    sp = _single_pass_loops(sx, base_dict, tl)
+    if sp is not None:
+        if sp[0].init.get(sp[2]) not in (("dict", ()), ("call", "dict", (), ())):
+            chk.undecided(rule, where, "the table filled by the grouping pass does not start empty: `%s`" % show(sp[0].init.get(sp[2])))
+            return
+        _single_pass(ctx, chk, rule, sx, sp, tl, f, where)
+        return
     _grouping_and_pairs(ctx, chk, rule, sx, base_dict, tl, f, fn_of, where)
+
+
+OLD_ENTRY = ("v", "<entry of the key>")
+
+
+def _single_pass_loops(sx, t, tl):
+    """t = the dictionary after `for s, ts in enumerate(tl): for (_, target) in ts: <update of the entry of target>`:
+    (outer loop, inner loop, name of the dictionary variable) or None"""
+    if t[0] != "res" or t[1] not in sx.loops:
+        return None
+    Lo = sx.loops[t[1]]
+    if Lo.kind != "for" or Lo.source != tl or not Lo.enumerated or len(Lo.inner) != 1:
+        return None
+    Li = sx.loops[Lo.inner[0]]
+    if Li.kind != "for" or Li.source != ("elem", Lo.id) or Lo.update.get(t[2]) != ("res", Li.id, t[2]):
+        return None
+    return Lo, Li, t[2]
+
+
+def _entry_after(Li, d, k, present):
+    """The entry of key k after one iteration of the inner loop, given that k was present (with the list OLD_ENTRY) / absent before:
+    a tuple of appended items following the old content ('OLD', items...) / ('NEW', items...), or None when the iteration does
+    something that is not understood.  The membership tests the code may use (`k in d`, `k not in d`, `d.get(k) is None`,
+    `d.get(k, default)`, `d.setdefault(k, [])`, `d[k]`) are decided by the case."""
+    from ..symx import subst, deep_simp
+    D = ("acc", Li.id, d)
+
+    def sigma(t):
+        def g(x):
+            if x[0] == "cmp" and x[1] in ("in", "notin") and x[2] == k and x[3] in (D, ("mcall", D, "keys", (), ())):
+                return C((x[1] == "in") == present)
+            if x[0] == "mcall" and x[1] == D and x[2] == "get" and x[3] and x[3][0] == k:
+                return OLD_ENTRY if present else (x[3][1] if len(x[3]) > 1 else C(None))
+            if x[0] == "idx" and x[1] == D and x[2] == k:
+                return OLD_ENTRY if present else ("keyerror",)
+            return None
+        for _ in range(3):
+            t0 = t
+            t = subst(t, g)
+            t = subst(t, lambda x: C(x[1] in ("isnot", "!=")) if x[0] == "cmp" and x[1] in ("is", "isnot", "==", "!=") and OLD_ENTRY in (x[2], x[3]) and C(None) in (x[2], x[3]) else None)
+            t = deep_simp(t)
+            # the entry read back right after it was stored in this iteration
+            t = subst(t, lambda x: x[1][3] if x[0] == "idx" and x[1][0] == "setitem" and x[1][1] == D and x[1][2] == k and x[2] == k else None)
+            if t == t0:
+                break
+        return t
+    state = ("OLD",) if present else None           # None = no entry
+    stored = None                                    # the term last stored under k in this iteration (identity of a fresh list)
+    for e in Li.effects:
+        cond = sigma(e[0])
+        if cond == FALSE:
+            continue
+        if cond != TRUE:
+            return None
+        if e[1] == "setitem":
+            base, key, val = e[2], sigma(e[3]), sigma(e[4])
+            if key != k:
+                return None
+            if val[0] == "list":
+                state, stored = ("NEW",) + tuple(val[1]), val
+            elif val[0] == "cat" and val[1] == OLD_ENTRY and val[2][0] == "list" and state is not None and state[0] == "OLD" and len(state) == 1:
+                state = ("OLD",) + tuple(val[2][1])
+            else:
+                return None
+        elif e[1] == "call":
+            t = sigma(e[2])
+            if t[0] != "mcall":
+                return None
+            recv, m, args = t[1], t[2], t[3]
+            if m == "setdefault" and recv == D and len(args) == 2 and args[0] == k and args[1] == ("list", ()):
+                if state is None:
+                    state = ("NEW",)
+                continue
+            if m != "append" or len(args) != 1:
+                return None
+            if recv[0] == "mcall" and recv[1] == D and recv[2] == "setdefault" and len(recv[3]) == 2 and recv[3][0] == k and recv[3][1] == ("list", ()):
+                if state is None:
+                    state = ("NEW",)
+                state = state + (args[0],)
+            elif recv == OLD_ENTRY and state is not None and state[0] == "OLD":
+                state = state + (args[0],)
+            elif state is not None and state[0] == "NEW" and (recv == stored or recv == ("list", state[1:])):
+                state = state + (args[0],)
+            else:
+                return None
+        else:
+            return None
+    return state
+
+
+def _single_pass(ctx, chk, rule, sx, sp, tl, f, where):
+    """grouping without an intermediate pair list: one append of the source under the target's key per transition"""
+    Lo, Li, d = sp
+    w = f.where(Li.node)
+    if not Lo.whole or Lo.has_break or Lo.has_return or Lo.cont != FALSE or not Li.whole or Li.has_break or Li.has_return or Li.cont != FALSE:
+        chk.violation(rule, w, "the loops over the states / their transitions do not process every transition (slice / break / continue)", expected="one append per transition",
+                      found=norm_stmt(Li.node)[:80], construct="single-pass grouping partial")
+        return False
+    k, v = simp(("idx", ("elem", Li.id), C(1))), ("pos", Lo.id)
+    pres, absent = _entry_after(Li, d, k, True), _entry_after(Li, d, k, False)
+    if pres is None or absent is None:
+        chk.undecided(rule, w, "the update of the reversed table per transition is not in a recognised form (entry present: %s, entry absent: %s)" % (pres, absent))
+        return False
+    if pres == ("OLD", v) and absent == ("NEW", v):
+        chk.ok(rule, w, "grouping in one pass: for every state s (enumerate, whole list) and every transition (_, t) of s the entry of t gets s appended "
+               "(entry present: old list + [s]; entry absent: [s]) - multiplicity kept, nothing filtered")
+        return True
+    what = "when the target already has an entry it becomes %s, when it has none it becomes %s" % (
+        "old list + %s" % [show(x) for x in pres[1:]] if pres[0] == "OLD" else "a new list %s" % [show(x) for x in pres[1:]],
+        [show(x) for x in absent[1:]])
+    chk.violation(rule, w, "the reversed table is not `entry(t).append(s)` per transition: %s" % what, expected="old + [s] / [s]", found=what, construct="single-pass grouping update")
+    return False
 
 
 def _completion_AB(ctx, chk, rule, sx, Lm, v, full_range, f, fn_of):
@@ -819,4 +1008,4 @@ def run(ctx, chk):
     r35_worklist(ctx, chk)
     r4_result(ctx, chk)
     r6_reversed_table(ctx, chk)
-    chk.require_instances("C07", 9)
+    chk.require_instances("C07", 8)
